@@ -79,3 +79,15 @@ Proof. reflexivity. Qed.
 Lemma skel_SendMsg_ok : skel_SendMsg =
   [Call "GetLeader"; IfE "region.GetLeader() == nil" [Ret] []; Assign "msg.Header" "= &pdpb.ResponseHeader{ClusterId: s.clusterID}"; Assign "msg.RegionId" "= region.GetID()"; Assign "msg.RegionEpoch" "= region.GetRegionEpoch()"; Call "GetLeader"; Assign "msg.TargetPeer" "= region.GetLeader()"].
 Proof. reflexivity. Qed.
+
+(* the push loop: a vanished region's operator is removed, cancelled (if it still can be) and ALWAYS buried;
+   GetOpInfluence moves running operators to TIMEOUT / SUCCESS without removing them *)
+Lemma skel_pollNeedDispatchRegion_ok : skel_oc_pollNeedDispatchRegion =
+  [Lock "oc"; DeferUnlock "oc"; IfE "oc.opNotifierQueue.Len() == 0" [Ret] []; Call "Pop"; IfE "!(oc.operators[((heap.Pop(&oc.opNotifierQueue).(*operatorWithTime)).op.RegionID())])#1 || (oc.operators[((heap.Pop(&oc.opNotifierQueue).(*operatorWithTime)).op.RegionID())])#0 == nil" [Ret] []; Call "GetRegion"; IfE "r == nil" [Call "removeOperatorLocked"; Call "Cancel"; Call "buryOperator"; Ret] []; Call "Check"; IfE "((oc.operators[((heap.Pop(&oc.opNotifierQueue).(*operatorWithTime)).op.RegionID())])#0.Check(r)) == nil" [Ret] []; Call "Before"; IfE "(time.Now()).Before((heap.Pop(&oc.opNotifierQueue).(*operatorWithTime)).time)" [Call "Push"; Ret] []; Call "getNextPushOperatorTime"; Call "Push"; Ret].
+Proof. reflexivity. Qed.
+Lemma skel_PushOperators_ok : skel_oc_PushOperators =
+  [ForE [Call "pollNeedDispatchRegion"; IfE "!(oc.pollNeedDispatchRegion())#1" [Brk] []; IfE "(oc.pollNeedDispatchRegion())#0 == nil" [Cont] []; Call "Dispatch"]].
+Proof. reflexivity. Qed.
+Lemma skel_GetOpInfluence_ok : skel_oc_GetOpInfluence =
+  [RLock "oc"; DeferRUnlock "oc"; ForE [Call "CheckTimeout"; Call "CheckSuccess"; IfE "!each#v(oc.operators).CheckTimeout() && !each#v(oc.operators).CheckSuccess()" [Call "GetRegion"] []]; Ret].
+Proof. reflexivity. Qed.
